@@ -163,6 +163,19 @@ wait:
 		case <-tick.C:
 			if n := ops.Load(); n != last {
 				last, lastChange = n, time.Now()
+			} else if stop.Load() && time.Since(lastChange) > 2*time.Second {
+				// a violation was already recorded (e.g. a caller panicked while holding a lock); the rest may be stuck behind it
+				res.Dump = Dump()
+				for i := range slots {
+					if f := slots[i].Swap(nil); f != nil {
+						(*f)()
+					}
+				}
+				select {
+				case <-done:
+				case <-time.After(2 * time.Second):
+				}
+				break wait
 			} else if time.Since(lastChange) > cfg.Stall {
 				res.Dump = Dump()
 				violate(fmt.Sprintf("no operation completed for %v with %d of %d operations done: callers are stuck (lost wake-up or leaked lock); see goroutine dump", cfg.Stall, n, cfg.Ops))
